@@ -5,7 +5,7 @@ V = os.path.dirname(os.path.dirname(os.path.abspath(__file__)))
 ALL = ['C%02d' % i for i in range(1, 20)]
 
 # properties whose check is built, reviewed and registered
-CLAIMED = ['C01', 'C04', 'C05', 'C07', 'C08', 'C09', 'C10', 'C11', 'C12', 'C14', 'C15', 'C16', 'C17', 'C18', 'C19']
+CLAIMED = ['C%02d' % i for i in range(1, 20)]
 sys.path.insert(0, V)
 from mc import engine
 
